@@ -244,10 +244,21 @@ func runC07(c *Ctx) {
 				c.Violf("request of %s was never answered although it kept reading: %s", cl.Name, Brief(o.Msg))
 				continue
 			}
+			// (a callee that streams progressive results can have several YIELDs held back one
+			// after the other, each for up to the retry period: the caller reads a little, stops again)
+			m := 0
+			for _, ty := range heldYields {
+				if ty <= at && ty >= o.T-retryPeriod {
+					m++
+				}
+			}
+			if m > 0 && at-o.T <= time.Duration(m)*retryPeriod {
+				instant = false // possibly queued behind held-back YIELDs
+				c.Probe("request_behind_held_yield")
+			}
 			for _, ty := range heldYields {
 				if ty <= at && at-ty <= retryPeriod {
-					instant = false // possibly queued behind a held-back YIELD
-					c.Probe("request_behind_held_yield")
+					instant = false
 				}
 			}
 			if instant && at-o.T > 0 {
